@@ -129,6 +129,29 @@ class Check:
                 rec['file'], rec['line'], rec['function'], rec['rule'], rec['construct'],
                 rec['detail'][:300], rec['expected'][:300], rec['got'][:300]))
             print('VIOLATION property=%s replay=%s' % (self.pid, rp))
+        changed = {}
+        if self.violations:
+            # diagnosis aid: for every analysed Python function that differs from its confirmed version and could not be proved
+            # equivalent to it, where the two normal forms part (this is usually the edit that matters, stripped of the restructuring)
+            try:
+                import difflib
+                from . import pyflow
+                files = {rec['file'] for rec in self.violations}
+                for rel, m in list(pyflow._mods.items()):
+                    if rel not in files:
+                        continue
+                    for q, (ta, tb) in getattr(m, 'unproved', {}).items():
+                        if not ta or not tb:
+                            continue
+                        d = [l for l in difflib.unified_diff(tb.split('\n'), ta.split('\n'), 'confirmed', 'current', lineterm='', n=0)
+                             if l[:1] in '+-' and not l.startswith(('+++', '---'))]
+                        if d:
+                            changed['%s::%s' % (rel, q)] = [x[:240] for x in d[:12]]
+                            print('NOTE %s %s differs from its confirmed version (normal forms, local names v0, v1, ...; %d differing lines):' % (rel, q, len(d)))
+                            for x in d[:8]:
+                                print('     ' + x[:200])
+            except Exception:
+                pass
         cov = {
             # obligations that hit a *listed* known finding are reported apart
             'obligations': self.obligations - len(self.known_hits),
@@ -149,6 +172,8 @@ class Check:
             'notes': self.notes,
             'repo': REPO,
         }
+        if changed:
+            cov['changed_functions_not_proved_equivalent'] = changed
         cov.update(self.extra)
         ev = {
             'property_id': self.pid,
